@@ -127,6 +127,30 @@ func (e *Env) call(x *ECall) Val {
 			}
 		}
 		e.fail("entry(%s): no such parameter", id.Name)
+	case "atentry":
+		// atentry(x), in a loop invariant: the value the loop variable x had when this loop was entered (x itself
+		// denotes its value at the top of the current iteration). For an inner loop this is the value computed by the
+		// enclosing iteration just before, so "i >= atentry(i)" says the inner loop never moves i backwards.
+		id, ok := x.Args[0].(*EIdent)
+		if !ok || e.f == nil || e.at == nil {
+			e.fail("atentry(...) expects the name of a loop variable, in a loop invariant")
+		}
+		lp := e.f.loopAt[e.at]
+		if lp == nil || lp.Header != e.at {
+			e.fail("atentry(%s) used outside a loop invariant", id.Name)
+		}
+		for _, in := range lp.Header.Instrs {
+			phi, ok := in.(*ssa.Phi)
+			if !ok {
+				break
+			}
+			if phi.Comment == id.Name {
+				if v, ok := lp.entryVals[phi]; ok {
+					return v
+				}
+			}
+		}
+		e.fail("atentry(%s): no loop variable of that name at this loop", id.Name)
 	case "sameArray":
 		// two slices are views of the same backing array (they may alias)
 		a, b := arg(0), arg(1)
